@@ -170,9 +170,11 @@ func (l *liveState) mutate() string {
 		return out
 	}
 	anyRef := func() ref {
-		switch c.Choose(4, "mut-ref") {
+		switch c.Choose(5, "mut-ref") {
 		case 0:
 			return ref{}
+		case 4:
+			return ref{"F", int64(c.Choose(w.nA, "mut-ref-f"))}
 		case 1:
 			return ref{"A", int64(c.Choose(w.nA, "mut-ref-a"))}
 		case 2:
